@@ -2,6 +2,7 @@ package main
 
 import (
 	"fmt"
+	"os"
 	"go/types"
 	"sort"
 	"strings"
@@ -182,6 +183,9 @@ func (x *Exec) rootReturn(st *State, f *Frame, res []Val) {
 	if x.dry != nil {
 		return
 	}
+	if os.Getenv("SSOVC_TRACE") != "" {
+		fmt.Println("RETURN", strings.Join(st.trace, " "))
+	}
 	con := x.con
 	// every lock taken must have been released
 	for k := range st.held {
@@ -228,6 +232,12 @@ func (x *Exec) frameObligations(st *State, env *Env, con *Contract) {
 	var locs []FrameLoc
 	penv := *env
 	penv.inOld = true // targets are evaluated in the pre-state
+	if st.lastLock != nil {
+		// ... or, when the function takes a lock, in the state at acquisition (guarded
+		// fields have no meaningful value before that)
+		penv.inOld = false
+		penv.cur = st.lastLock
+	}
 	for _, cl := range con.Clauses {
 		if cl.Kind == "modifies" {
 			hasMod = true
